@@ -479,7 +479,8 @@ pub fn execute(plan: &ExPlan) -> ExRun {
         let idle_h = handle.clone();
         guarded(move || {
             let fut = seqs::drive(plan.seq, &plan.input, &mut pt, rec, h, log2, max_items);
-            let budget = 20_000 + 40 * (plan.stream().len() as u64 + 64);
+            // a livelock guard only: a client that wakes up every 100 ms of a one-hour stall is fine
+            let budget = 2_000_000 + 40 * (plan.stream().len() as u64 + 64);
             let (out, polls) = exec::run(fut, || idle_h.idle(), budget);
             let o = match out {
                 Outcome::Done(()) => "done",
